@@ -628,7 +628,7 @@ def _error_kind(w):
 
 
 def scenario_c12(scn):
-    """scn: {id, how: 'terminate'|'sigterm'|'tshort' (terminate(timeout=0.3, force=True)), kids: [{state, persistent}], racer: None|{step, delay}, streams, pos, logdir}
+    """scn: {id, how: 'terminate'|'sigterm'|'tshort' (terminate(timeout=0.3, force=True))|'tgrace' (terminate(timeout=5, force=False)), kids: [{state, persistent}], racer: None|{step, delay}, streams, pos, logdir}
     kid states: coop / swallow (target running), idle (persistent, no input), finished, inctx (idle in a
     context), inctx-coop / inctx-swallow (running the context's target), swallow-t (swallowing worker that has
     survived a graceful terminate(timeout, force=False) of its parent before the stop), swallow-gone / coop-gone (persistent
@@ -760,10 +760,11 @@ def scenario_c12(scn):
 
         # the stop
         t0 = time.time()
-        if scn['how'] in ('terminate', 'tshort'):
+        if scn['how'] in ('terminate', 'tshort', 'tgrace'):
             # tshort: the parent's join expires while the server is still in its `finally` loop -> SIGTERM lands inside it
-            tmo = 5 if scn['how'] == 'terminate' else 0.3
-            r = L.bounded(lambda: srv.proc.terminate(timeout=tmo, force=True), 30)
+            # tgrace: the graceful request only (force=False): nobody signals a server that does not exit by itself
+            tmo = 0.3 if scn['how'] == 'tshort' else 5
+            r = L.bounded(lambda: srv.proc.terminate(timeout=tmo, force=(scn['how'] != 'tgrace')), 30)
             notes['stop'] = L.tag(r)
         else:
             os.kill(srv.pid, signal.SIGTERM)
